@@ -70,6 +70,16 @@ def run(ctx):
         raise vp.Broken("rune sweep covered only %d strings" % nrunes)
     ctx.coverage_extra["rune_sweep_strings"] = nrunes
     ctx.judge("Judge_c06", "Judge_c06.cfg", of, label="sweep", chunk=6000)
+    # ---- length sweep: one string per length (Gen_c06l)
+    c = "Gen_c06l.cfg"
+    open(ctx.path("spec", c), "w").write("SPECIFICATION Spec\nCONSTANTS\n  Dense = %d\n  Max = %d\nCHECK_DEADLOCK FALSE\n" % ((140, 1024) if ctx.quick else (400, 4096)))
+    cf = ctx.path("cases_len.ndjson")
+    ctx.tlc("Gen_c06l", c, env={"CASE_FILE": cf}, workers=1, timeout=600)
+    of = ctx.path("obs_len.ndjson")
+    ctx.drive("c06", cf, of)
+    ctx.note("length sweep: %d strings (every length up to %d, the neighbours of the powers of two beyond, three patterns)"
+             % (ctx.count_lines(of), 140 if ctx.quick else 600))
+    ctx.judge("Judge_c06", "Judge_c06.cfg", of, label="len", chunk=300)
     # ---- family 2: every string whatsoever x every template position
     sigma, n = ("SigmaW", 2) if ctx.quick else ("SigmaW", 3)
     c = "Gen_c06t_%s_%d.cfg" % (sigma, n)
